@@ -1,6 +1,9 @@
 """Attribute noise: attributes that must not change what a strum derive generates (doc comments, lint
 attributes, cfg_attr that is always on, strum attributes that belong to OTHER derives)."""
 
+# size "minimal": no noise at all, `disabled` always on its own
+MINIMAL = [False]
+
 DOCS = ["/// A documented variant.", "/// Two-line", "///  indented doc with `code` and {braces}", "/// \"quoted\" text",
         "/** block doc */", "#[doc = \"doc attribute\"]"]
 LINTS = ["#[allow(dead_code)]", "#[allow(unused, clippy::all)]", "#[cfg_attr(all(), allow(unused_variables))]", "#[cfg(all())]",
@@ -16,6 +19,8 @@ def variant_noise(rng, p=0.3, other_strum=True, existing=""):
     """returns attribute lines to put in front of a variant (possibly empty); single-use strum
     attributes (message, detailed_message) are never repeated (`existing`: attributes already there)"""
     out = []
+    if MINIMAL[0]:
+        return out
     if rng.random() < p:
         k = rng.choice([1, 1, 2, 3])
         for _ in range(k):
@@ -37,6 +42,8 @@ def variant_noise(rng, p=0.3, other_strum=True, existing=""):
 def enum_noise(rng, p=0.3):
     """attribute lines to put BEFORE the #[derive(..)] line of an enum (helper attributes may not precede it)"""
     out = []
+    if MINIMAL[0]:
+        return out
     if rng.random() < p:
         out.append(rng.choice(["/// A documented enum.", "#[allow(dead_code)]", "#[allow(clippy::enum_variant_names)]",
                                "#[cfg_attr(all(), allow(unused))]"]))
@@ -46,7 +53,7 @@ def enum_noise(rng, p=0.3):
 def enum_strum_noise(rng, p=0.12):
     """strum attributes to put AFTER the derive line: the crate path override pointing at the crate's real
     name is a no-op"""
-    if rng.random() < p:
+    if not MINIMAL[0] and rng.random() < p:
         return [rng.choice(['#[strum(crate = "strum")]', '#[strum(crate = "::strum")]'])]
     return []
 
@@ -54,6 +61,8 @@ def enum_strum_noise(rng, p=0.12):
 def trailing_commas(rng, lines, p=0.15):
     """`#[strum(a, b,)]`: a trailing comma inside the list is legal"""
     out = []
+    if MINIMAL[0]:
+        return list(lines)
     for l in lines:
         if l.startswith("#[strum(") and l.endswith(")]") and not l.endswith(",)]") and rng.random() < p:
             l = l[:-2] + ",)]"
@@ -72,7 +81,7 @@ def place(rng, existing, extra):
 def fold_disabled(rng, lines):
     """`disabled` need not stand alone: half of the time it is merged into another #[strum(...)] list of the same
     variant (before or after the other entries), or gets a neighbour of its own."""
-    if "#[strum(disabled)]" not in lines or rng.random() < 0.4:
+    if MINIMAL[0] or "#[strum(disabled)]" not in lines or rng.random() < 0.4:
         return lines
     others = [i for i, l in enumerate(lines) if l.startswith("#[strum(") and l != "#[strum(disabled)]" and l.endswith(")]")]
     out = list(lines)
